@@ -130,7 +130,9 @@ class C13(Engine):
             "backend": backend,
             "op": op,
             "files": files,
-            "nappend": rng.choice((1, 2, 5, 30)),
+            # (every appended command is one more transaction of the same shape: 8 of them show every site kind; 30 made
+            #  one sqlite instance ~400 forked variants, close to the per-run watchdog on a loaded machine)
+            "nappend": rng.choice((1, 2, 5, 30)) if backend == "json" else rng.choice((1, 2, 5, 8)),
             "append_pad": rng.choice((5, 300, 3000)),
             "pattern": rng.choice(("cmds0_1", "cmds[01]_.*", "cmd.*", "dup1", "nomatch")),
             "boot": rng.choice((900.0, 1200.0, 1700.0, 5000.0)),
